@@ -416,22 +416,39 @@ def ns_shard(payload_lists):
                 sock.send = send
                 ns = sumod.NetstringSocket(sock)
                 prob = None
+                interrupted = False
                 try:
                     for p in payloads:
-                        ns.write_ns(p)
+                        try:
+                            ns.write_ns(p)
+                        except (sumod.Timeout, InjectedSocketError):
+                            # a send that timed out keeps what it had accepted in the send buffer: the caller flushes
+                            # (retrying once more if need be) and goes on with the next payload
+                            interrupted = True
+                            for attempt in range(3):
+                                try:
+                                    ns.bsock.flush()
+                                    break
+                                except (sumod.Timeout, InjectedSocketError):
+                                    continue
                 except Exception as e:
                     prob = type(e).__name__
                 case = {'payloads': payloads, 'send_answers': list(script)}
                 t.count(nontrivial=bool(script), sample=case)
                 if prob or bytes(sock.sent) != wire_want:
-                    t.bad('C12|netstring:write_ns|bytes on the wire', case, wire_want, prob or bytes(sock.sent))
+                    t.bad('C12|netstring:write_ns%s|bytes on the wire' % ('(interrupted, then flushed)' if interrupted else ''),
+                          case, wire_want, prob or bytes(sock.sent))
                     continue
                 wires.add(bytes(sock.sent))
                 if len(script) < 2:
+                    n_special = sum(1 for k in script if isinstance(k, str))
                     for i in range(len(script), len(points)):
                         base = script + [points[j] for j in range(len(script), i)]
                         for k in range(1, points[i]):
                             stack.append(base + [k])
+                        if n_special < 1:
+                            stack.append(base + ['T'])
+                            stack.append(base + ['E'])
             # read side: every chunking of the wire bytes
             for sizes in inputs.compositions(len(wire_want)):
                 clock = Clock(); sumod.time = clock
@@ -484,6 +501,49 @@ def ns_maxsize_shard(arg):
             t.count(nontrivial=len(sizes) > 1, sample=case)
             if got != [payload, b'z']:
                 t.bad('C12|netstring:read_ns(maxsize raised %s)|payloads read back' % mode, case, [payload, b'z'], got)
+    finally:
+        sumod.time = saved_time
+    return t
+
+
+def ns_boundary_shard(maxsize):
+    """Payloads exactly at the limit: maxsize a power of ten or of two (where the number of digits of the length prefix
+    changes), payload of maxsize - 1 and maxsize bytes, a few chunkings of the wire (not exhaustive in the chunking)."""
+    t = inputs.Tally()
+    sumod = su()
+    saved_time = sumod.time
+    try:
+        for plen in (maxsize - 1, maxsize):
+            payload = (b'a:,1' * (plen // 4 + 1))[:plen]
+            wire = ns_encode(payload) + ns_encode(b'z')
+            ndig = len(str(plen))
+            cuts = [[len(wire)], [1, len(wire) - 1], [ndig, len(wire) - ndig], [ndig + 1, len(wire) - ndig - 1],
+                    [ndig + 1 + plen, len(wire) - ndig - 1 - plen]]
+            for how in ('constructor', 'per-call', 'setmaxsize'):
+                for sizes in cuts:
+                    if any(x <= 0 for x in sizes):
+                        continue
+                    clock = Clock(); sumod.time = clock
+                    sock = ScriptSocket(build_items(wire, sizes, ()), clock)
+                    got = []
+                    try:
+                        if how == 'constructor':
+                            ns = sumod.NetstringSocket(sock, maxsize=maxsize)
+                            got = [ns.read_ns(), ns.read_ns()]
+                        elif how == 'per-call':
+                            ns = sumod.NetstringSocket(sock, maxsize=5)
+                            got = [ns.read_ns(maxsize=maxsize), ns.read_ns(maxsize=maxsize)]
+                        else:
+                            ns = sumod.NetstringSocket(sock, maxsize=5)
+                            ns.setmaxsize(maxsize)
+                            got = [ns.read_ns(), ns.read_ns()]
+                    except Exception as e:
+                        got.append('raised ' + type(e).__name__)
+                    case = {'payload_len': plen, 'chunks': sizes, 'maxsize': maxsize, 'how': how}
+                    t.count(nontrivial=True, sample=case)
+                    if got != [payload, b'z']:
+                        t.bad('C12|netstring:read_ns(payload at the limit, maxsize by %s)|payloads read back' % how, case,
+                              'the payload of %d bytes and b"z"' % plen, [g if isinstance(g, str) else len(g) for g in got])
     finally:
         sumod.time = saved_time
     return t
@@ -549,6 +609,10 @@ def run(ctx):
     inputs.run_shards(ctx, ns_maxsize_shard, [(m, n) for m in ('per-call', 'setmaxsize') for n in (9, 10, 12)],
                       part='netstring-maxsize', rule='payloads of 9-12 bytes read by a reader whose maxsize 5 is raised to '
                       '100 per call / by setmaxsize, under every chunking with <= 3 cuts and one byte at a time')
+    limits = [10, 100, 1000, 10 ** 4, 10 ** 5, 10 ** 6, 16, 256, 4096, 65536] + ([] if quick else [10 ** 7, 2 ** 20, 2 ** 24])
+    inputs.run_shards(ctx, ns_boundary_shard, limits, part='netstring-at-the-limit', rule=(
+        'directed (not exhaustive in the chunking): maxsize a power of ten / of two given by constructor, per call and by '
+        'setmaxsize; payloads of maxsize-1 and maxsize bytes; five chunkings that cut around the length prefix'))
     cov = ctx.coverage
     cov['rule'] = 'see parts; one evaluation = one execution of the real socket code against one scripted environment'
     cov['exhaustive'] = True
@@ -557,7 +621,9 @@ def run(ctx):
                      'send_program_len': nops, 'netstring_payload_len': nmax}
     ctx.assumptions += ['the socket is any object with recv/send/settimeout/gettimeout (as the module documents)',
                         'a call that raised Timeout is retried until it completes',
-                        'read_ns is explored under all chunkings but without timeouts inside one message']
+                        'read_ns is explored under all chunkings but without timeouts inside one message',
+                        'a write_ns interrupted by Timeout / a socket error is completed by flush() of the underlying '
+                        'BufferedSocket (what a timed-out send had accepted stays in its send buffer)']
 
 
 def replay(ctx, data):
@@ -578,7 +644,10 @@ def replay(ctx, data):
             program = [tuple(b(y) for y in c) for c in case['program']]
             _, prob = run_send(program, case['send_answers'], 2)
             return ['%s: expected %r observed %r (op %r)' % prob] if prob else []
+        if 'payload_len' in case:
+            t = ns_boundary_shard(case['maxsize'])
+            return ['%s: expected %r observed %r' % (v[6], v[1], v[2]) for v in t.viols.values()]
         t = ns_shard([[b(p) for p in case['payloads']]])
-        return ['%s: expected %r observed %r' % (s, v[1], v[2]) for s, v in t.viols.items()]
+        return ['%s: expected %r observed %r' % (v[6], v[1], v[2]) for v in t.viols.values()]
     finally:
         sumod.time = saved
